@@ -376,6 +376,16 @@ pub fn check_eqv(c: &EqvCase, ctx: &mut Ctx) -> CheckResult {
                     ctx.label("known-finding:solved-at-diverged-iterate");
                     continue;
                 }
+                // known finding: a reduced-accuracy (Almost*) infeasibility verdict on a variant whose objective
+                // was scaled by >= 1e3 (the infeasibility test is relative to q'x resp. b'z and the cost scaling of
+                // the equilibration is clipped) contradicts the verdict of the unscaled formulation
+                let almost_scaled = |k: usize| {
+                    matches!(outs[k].status, SolverStatus::AlmostDualInfeasible | SolverStatus::AlmostPrimalInfeasible) && (vars[k].cscale >= 1e3 || vars[k].cscale <= 1e-3)
+                };
+                if (almost_scaled(i) || almost_scaled(j)) && known_finding_hit("C05:almost-infeasible-under-objective-scaling") {
+                    ctx.label("known-finding:almost-infeasible-under-objective-scaling");
+                    continue;
+                }
             }
             ensure!(
                 a == Verdict::None || b == Verdict::None || a == b,
